@@ -12,8 +12,8 @@ SB=/tmp/sb-$N
 rm -rf $SB/verif $SB/out; git -C /repo worktree remove --force $SB/repo 2>/dev/null; mkdir -p $SB
 git -C /repo worktree add --detach $SB/repo HEAD >/dev/null 2>&1 || exit 2
 git -C $SB/repo apply "$D/patch.diff" || { echo "patch does not apply"; exit 2; }
-rsync -a --exclude .git --exclude sim/target/runs --exclude "incremental" /verif/ $SB/verif/ 2>/dev/null
-sed -i "s#/repo/rscel#$SB/repo/rscel#" $SB/verif/sim/Cargo.toml
+rsync -a --exclude .git --exclude sim/target/runs --exclude "incremental" ${VERIF_SRC:-/verif}/ $SB/verif/ 2>/dev/null
+sed -i "s#path = \"[^\"]*rscel\"#path = \"$SB/repo/rscel\"#" $SB/verif/sim/Cargo.toml
 export VERIF_OUT_DIR=$SB/out; mkdir -p $SB/out
 for id in $IDS; do
   out=$($SB/verif/check "$id" ${VERIF_TIER:-quick} 2>&1); rc=$?
